@@ -58,6 +58,14 @@ func (s *Stats) Eval() {
 	s.mu.Unlock()
 }
 
+// EvalN counts n further executions (re-runs of one instance with a kill, a fault or a
+// stop at a different point are executions of their own).
+func (s *Stats) EvalN(n int) {
+	s.mu.Lock()
+	s.Evaluations += n
+	s.mu.Unlock()
+}
+
 func (s *Stats) Label(l string) {
 	s.mu.Lock()
 	s.Labels[l]++
